@@ -113,7 +113,7 @@ func allChecks() []*Check {
 				{Pkg: "client", Func: "VerifC20Password", ValSet: true, Quick: map[string]int{"PL": 2, "R": 2}, Thorough: map[string]int{"PL": 4, "R": 3}, Asserts: []string{"password-not-in-log", "pass-line-masked"}, Note: "several sessions on one client (welcomed, disconnected, reconnected)"},
 				{Pkg: "client", Func: "VerifC20Password", ValSet: true, Quick: map[string]int{"PL": 1, "LONG": 1}, Thorough: map[string]int{"PL": 2, "LONG": 1}, Asserts: []string{"password-not-in-log"}, Note: "password of 521..524 bytes"},
 			},
-			Bounds:      map[string]string{"quick": "passwords of 1..3 symbolic bytes over a 16-symbol alphabet (3-9 # $ ~ ^ _ = + @ ?) disjoint from the library's own log texts, plus a space anywhere but first (and 1 symbolic byte behind a 520-byte filler); one whole session per path: dial ok / refused, negotiation on/off, tracking on/off, flood control off (Flood=true), the k-th socket write failing (k = none,0..3), three received lines (a NOTICE, the 001 welcome, a malformed line), Close; a REGISTER handler that leaves Config.Pass alone / wipes it / replaces it; a peer that reads at once or only after Connect returned; the same with 2 sessions in a row on one client (passwords 1..2 bytes); every format string and every string / error argument of every logger call is inspected", "thorough": "passwords up to 6 symbolic bytes; 3 sessions in a row with passwords up to 4 bytes"},
+			Bounds:      map[string]string{"quick": "passwords of 1..3 symbolic bytes over a 13-symbol alphabet (5-9 # $ ~ ^ _ = + ?) disjoint from the library's own log texts and the scripted server's lines, plus a space anywhere but first (and 1 symbolic byte behind a 520-byte filler); one whole session per path: dial ok / refused, negotiation on/off, tracking on/off, flood control off (Flood=true), the k-th socket write failing (k = none,0..3), three server scripts (NOTICE, 001 welcome, a malformed line / a 433 nick collision before the welcome, then a forced NICK / CAP LS + ACK of 15 IRCv3 capabilities in common use, welcome, CAP NEW), Close; a REGISTER handler that leaves Config.Pass alone / wipes it / replaces it; a peer that reads at once or only after Connect returned; the same with 2 sessions in a row on one client (passwords 1..2 bytes); every format string and every string / error argument of every logger call is inspected", "thorough": "passwords up to 6 symbolic bytes; 3 sessions in a row with passwords up to 4 bytes"},
 			Outside:     []string{"passwords that are substrings of texts the library logs anyway (e.g. '*')", "loggers that look at non-string arguments", "error texts produced by the real network stack (the dialler is a stub)"},
 			Stubs:       []string{"proxy dialler stub, in-memory wire, bufio model, coroutine scheduler (goroutines run until they block)"},
 			QuickBudget: 5 * time.Minute, ThorBudget: 30 * time.Minute,
